@@ -8,6 +8,7 @@ import oracle
 import runner  # noqa: F401
 import scenario
 import strategies
+import tlsref
 from engine import Stage, Check
 
 PID = "C04"
@@ -169,6 +170,8 @@ def spec_strategy(draw, tier):
                                          delivery=strategies.tcp_delivery(modes=("rec", "cuts", "flight"), wrap=True, dups=True)))
             if share and c["version"] != 0x0304:
                 c["share_master"] = 2000 + share        # parallel resumption of one session: same master secret, own randoms
+            if c["version"] != 0x0304 and tlsref.load_suites()[c["suite"]].kind != "stream" and draw(st.integers(0, 3)) == 0:
+                c["sh_comp"] = True                     # DEFLATE negotiated (one stream per connection and direction)
         elif k == "quic":
             c = draw(strategies.quic_conn(max_steps=6, ep=st.just(ep)))
             if share:
